@@ -1,2 +1,327 @@
-// Package c18: (not built yet)
+// Package c18: localized text is chosen by the documented language fallback.
+//
+// Every case is one real engine session over a one-node flow whose localization document is
+// generated; the oracle is the reference chain of the property statement (model.go).
 package c18
+
+import (
+	"encoding/json"
+	"fmt"
+	"sort"
+	"strings"
+	"time"
+
+	"github.com/nyaruka/goflow/flows"
+	"verif/checks/c07/lab"
+	"verif/mc"
+)
+
+// ---- enumeration ------------------------------------------------------------------------------
+
+// vectors calls f for every assignment of a state to each of the three translation languages.
+func vectors(states []State, f func([3]State)) {
+	for _, a := range states {
+		for _, b := range states {
+			for _, c := range states {
+				f([3]State{a, b, c})
+			}
+		}
+	}
+}
+
+func trOf(prop string, v [3]State) map[string][]string {
+	m := map[string][]string{}
+	for i, l := range trLangs {
+		if t, ok := translation(prop, l, v[i]); ok {
+			m[l] = t
+		}
+	}
+	return m
+}
+
+func uniform(prop string, s State) map[string][]string { return trOf(prop, [3]State{s, s, s}) }
+
+// the six settings with which the pairwise crosses are run in the quick tier: every shape of the
+// preference chain (three distinct rungs in both orders, contact language not allowed, no contact
+// language, contact language = default, no allowed languages)
+var crossSettings = []Setting{
+	{Contact: langB, Allowed: []string{langA, langB}, Base: langD},
+	{Contact: langA, Allowed: []string{langB, langA}, Base: langD},
+	{Contact: langC, Allowed: []string{langA, langB}, Base: langB},
+	{Contact: "", Allowed: []string{langB}, Base: langA},
+	{Contact: langB, Allowed: []string{langB, langA}, Base: langA},
+	{Contact: langA, Allowed: nil, Base: langD},
+}
+
+func settingsOfBase(all []Setting, base string) []Setting {
+	var out []Setting
+	for _, s := range all {
+		if s.Base == base {
+			out = append(out, s)
+		}
+	}
+	return out
+}
+
+func run(c *mc.Ctx) {
+	idx := 0
+	expired := false
+	// flow runs one generated flow (a Config without setting) under the given settings; the unit of
+	// sharding is the flow.
+	flow := func(family string, cfg Config, settings []Setting) {
+		if expired {
+			return
+		}
+		mine := c.Mine(idx)
+		idx++
+		if !mine {
+			return
+		}
+		if c.Expired() {
+			expired = true
+			return
+		}
+		checkFlow(c, family, cfg, settings)
+	}
+	all := AllSettings()
+	bases := []string{langA, langB, langD}
+	props := map[string][]State{"text": textStates, "attachments": listStates, "quick_replies": listStates}
+	msgProps := []string{"text", "attachments", "quick_replies"}
+
+	// family P (per property): every state vector of one property x the other properties
+	// {untranslated, translated in every language} x the four base shapes x all 60 settings
+	for _, action := range []string{"send_msg"} {
+		for _, p := range msgProps {
+			vectors(props[p], func(v [3]State) {
+				for _, others := range []State{Absent, Same} {
+					for shape := 0; shape < 4; shape++ {
+						for _, base := range bases {
+							cfg := Config{Action: action, BaseAtt: shape&1 != 0, BaseQR: shape&2 != 0, Tr: map[string]map[string][]string{}}
+							for _, q := range msgProps {
+								if q == p {
+									cfg.Tr[q] = trOf(q, v)
+								} else {
+									cfg.Tr[q] = uniform(q, others)
+								}
+							}
+							cfg.Base = base
+							flow("send_msg:per-property:"+p, cfg, settingsOfBase(all, base))
+						}
+					}
+				}
+			})
+		}
+	}
+
+	// family X (pairwise independence): full cross of the state vectors of two properties, the
+	// third untranslated; quick: text x attachments at six settings, thorough: all three pairs at
+	// all 60 settings
+	pairs := [][2]string{{"text", "attachments"}}
+	crossAt := crossSettings
+	if c.Thorough() {
+		pairs = [][2]string{{"text", "attachments"}, {"text", "quick_replies"}, {"attachments", "quick_replies"}}
+		crossAt = all
+	}
+	for _, pr := range pairs {
+		vectors(props[pr[0]], func(v0 [3]State) {
+			vectors(props[pr[1]], func(v1 [3]State) {
+				for _, base := range bases {
+					ss := settingsOfBase(crossAt, base)
+					if len(ss) == 0 {
+						continue
+					}
+					cfg := Config{Action: "send_msg", Setting: Setting{Base: base}, BaseAtt: true, BaseQR: true, Tr: map[string]map[string][]string{
+						pr[0]: trOf(pr[0], v0), pr[1]: trOf(pr[1], v1),
+					}}
+					flow("send_msg:cross:"+pr[0]+"x"+pr[1], cfg, ss)
+				}
+			})
+		})
+	}
+
+	// family R (router): case arguments and category names of a switch router
+	for _, p := range []string{"arguments", "name"} {
+		q := map[string]string{"arguments": "name", "name": "arguments"}[p]
+		vectors(listStates, func(v [3]State) {
+			for _, others := range []State{Absent, Same} {
+				for _, base := range bases {
+					cfg := Config{Action: "router", Setting: Setting{Base: base}, Tr: map[string]map[string][]string{p: trOf(p, v), q: uniform(q, others)}}
+					flow("router:"+p, cfg, settingsOfBase(all, base))
+				}
+			}
+		})
+	}
+
+	// family V (say_msg in a voice flow): text
+	vectors(textStates, func(v [3]State) {
+		for _, base := range bases {
+			cfg := Config{Action: "say_msg", Setting: Setting{Base: base}, Tr: map[string]map[string][]string{"text": trOf("text", v)}}
+			flow("say_msg:text", cfg, settingsOfBase(all, base))
+		}
+	})
+
+	// family B (send_broadcast: one translation per language of the flow, explicit chain [language, base])
+	for _, p := range msgProps {
+		vectors(props[p], func(v [3]State) {
+			for _, others := range []State{Absent, Same} {
+				for _, base := range bases {
+					cfg := Config{Action: "send_broadcast", Setting: Setting{Base: base}, BaseAtt: true, BaseQR: true, Tr: map[string]map[string][]string{}}
+					for _, q := range msgProps {
+						if q == p {
+							cfg.Tr[q] = trOf(q, v)
+						} else {
+							cfg.Tr[q] = uniform(q, others)
+						}
+					}
+					// the broadcast does not look at the contact or the environment: two settings show that
+					flow("send_broadcast:"+p, cfg, []Setting{{Contact: langB, Allowed: []string{langA, langB}, Base: base}, {Contact: "", Allowed: nil, Base: base}})
+				}
+			}
+		})
+	}
+	if expired {
+		c.Cap("time budget reached: families are enumerated in a fixed order (per property, crosses, router, say_msg, broadcast) and every flow before the cap was checked under all its settings")
+	}
+}
+
+// checkFlow builds the flow once and runs it under every setting.
+func checkFlow(c *mc.Ctx, family string, cfg Config, settings []Setting) {
+	sa, err := lab.NewSA(cfg.Definition())
+	if err != nil {
+		c.Violation("harness:assets:"+family, "assets: "+err.Error()+"\n"+mc.JSON(cfg), cfg)
+		return
+	}
+	for _, s := range settings {
+		cfg.Setting = s
+		checkOne(c, family, sa, cfg)
+	}
+}
+
+func checkOne(c *mc.Ctx, family string, sa flows.SessionAssets, cfg Config) {
+	o := cfg.Execute(sa)
+	c.Inc("evaluations")
+	c.Inc("sessions:" + family)
+	if o.HarnessErr != "" {
+		c.Violation("harness:"+family+":"+mc.Hash(o.HarnessErr), o.HarnessErr+"\n"+mc.JSON(cfg), cfg)
+		return
+	}
+	problems, notes := Judge(&cfg, o)
+	for _, p := range problems {
+		c.Violation(p.Key, fmt.Sprintf("%s\nconfig: %s\nobserved: %s", p.What, mc.JSON(cfg), mc.JSON(o)), cfg)
+	}
+	if len(problems) > 0 {
+		return
+	}
+	nontrivial := false
+	for _, n := range notes {
+		c.Fact(n)
+		if strings.Contains(n, ":decided-by:") && !strings.HasSuffix(n, "base-is-first-preference") {
+			nontrivial = true
+		}
+		if strings.HasPrefix(n, "not-judged:") {
+			c.Inc(n)
+		}
+	}
+	if nontrivial {
+		c.Inc("distinct_nontrivial")
+	}
+	c.Outcome(outcomeClass(notes))
+	if c.WantSample() && strings.Contains(family, "cross") && nontrivial && len(cfg.Tr["text"]) >= 2 && len(cfg.Tr["attachments"]) >= 2 {
+		c.Sample(map[string]any{"config": cfg, "observed": o, "decisions": notes})
+	}
+}
+
+func outcomeClass(notes []string) string {
+	var ds []string
+	for _, n := range notes {
+		if strings.Contains(n, ":decided-by:") || strings.HasPrefix(n, "locale-from:") {
+			ds = append(ds, n)
+		}
+	}
+	sort.Strings(ds)
+	return strings.Join(ds, " ")
+}
+
+// ---- replay and registration --------------------------------------------------------------------
+
+func replayFn(c *mc.Ctx, raw json.RawMessage) (string, bool) {
+	var cfg Config
+	if err := json.Unmarshal(raw, &cfg); err != nil {
+		return "bad replay: " + err.Error(), false
+	}
+	def := cfg.Definition()
+	sa, err := lab.NewSA(def)
+	if err != nil {
+		return "assets: " + err.Error(), true
+	}
+	o := cfg.Execute(sa)
+	db, _ := json.Marshal(def)
+	prefs, _ := cfg.Setting.Prefs()
+	out := fmt.Sprintf("config: %s\ndefinition: %s\npreference chain: %v\nobserved: %s\n", mc.JSON(cfg), db, prefs, mc.JSON(o))
+	if o.HarnessErr != "" {
+		return out + "HARNESS: " + o.HarnessErr, true
+	}
+	problems, notes := Judge(&cfg, o)
+	out += "decisions: " + strings.Join(notes, ", ") + "\n"
+	for _, p := range problems {
+		out += fmt.Sprintf("PROBLEM %s: %s\n", p.Key, p.What)
+	}
+	return out, len(problems) > 0
+}
+
+func init() {
+	mc.Register(&mc.Check{
+		ID:    "C18",
+		Level: "exploration",
+		Rule: "every case is one session of the real engine over a one-node flow with a generated localization document, judged against the statement's reference chain (preferences = contact language if allowed, environment default language, flow base language; first preference that is the base language or has a non-empty translation wins; each property resolved on its own; locale from text, else attachments, else quick replies). " +
+			"Settings: contact language {unset, A, B, C (never allowed)} x allowed languages {[], [A], [A,B], [B,A], [B]} x base language {A, B, D} = 60. Translation state of a property in each of the languages A, B, C: {absent, [], [\"\"], same length as base, different length than base} (text additionally [\"\", x], the only way to a text-less message) -> 125 (216) state vectors. " +
+			"Enumerated exhaustively: (P) send_msg, for each of text / attachments / quick replies all its state vectors x the other two properties {untranslated, translated everywhere} x 4 base shapes (attachments and quick replies present or not) x 60 settings; " +
+			"(X) full cross of the state vectors of two properties (quick: text x attachments at 6 settings covering every chain shape; thorough: all three pairs at all 60 settings); " +
+			"(R) switch router: all state vectors of the case arguments x category name {untranslated, translated} and vice versa x 60 settings (the used arguments are read off the match, the category name off category_localized); " +
+			"(V) say_msg in a voice flow: all 216 text vectors x 60 settings; (B) send_broadcast: per property all state vectors x others {untranslated, translated} x 3 base languages x 2 settings, each language's content judged with the chain [that language, base]. " +
+			"Every (flow, setting) is distinct by construction; distinct_nontrivial counts the sessions in which some property was decided by a rung other than 'the first preference is the base language'.",
+		Assumptions: []string{
+			"a translation is non-empty iff it has at least one item and is not [\"\"] (the reading the statement's why-clause gives)",
+			"the statement does not say what a router compares when the winning translation of the arguments has a different number of arguments than the base: those sessions are executed and counted but not judged",
+			"a message whose text, attachments and quick replies are all empty has no language the statement could name: its locale is not judged; a say_msg whose text is empty creates no message and is not judged",
+			"only literal texts are used (no expressions), so 'text-less' is unambiguous",
+			"for send_broadcast the statement's chain is applied with the explicit preference list [translation language, base language]; which languages get a translation is not judged",
+			"clock, UUID and random sources are owned by the harness",
+		},
+		Run:    run,
+		Replay: replayFn,
+		Budget: map[string]time.Duration{"quick": 4 * time.Minute, "thorough": 25 * time.Minute},
+		Guards: guards,
+	})
+}
+
+func guards(r *mc.Result, tier string) []string {
+	var f []string
+	need := func(fact string) {
+		if r.Facts[fact] == 0 {
+			f = append(f, "never observed: "+fact)
+		}
+	}
+	for _, p := range []string{"text", "attachments", "quick_replies", "arguments", "name", "say_text"} {
+		for _, d := range []string{"contact-language-translation", "default-language-translation", "contact-language-is-base", "default-language-is-base", "base-after-all-preferences-empty", "base-is-first-preference"} {
+			need(p + ":decided-by:" + d)
+		}
+		for _, s := range []string{"absent", "empty-list", "blank-item"} {
+			need(p + ":skipped:" + s)
+		}
+		need(p + ":used-translation-of-different-length")
+	}
+	for _, x := range []string{"contact-language-not-allowed", "contact-language-unset", "no-allowed-languages", "contact-language-is-default"} {
+		need("chain:" + x)
+	}
+	for _, x := range []string{"text", "attachments", "quick_replies"} {
+		need("locale-from:" + x)
+	}
+	need("locale:text-and-attachments-in-different-languages")
+	need("locale:textless-attachments-and-quick-replies-in-different-languages")
+	need("base-language-translation-ignored")
+	need("broadcast:language-with-own-translation")
+	need("broadcast:language-falls-back-to-base")
+	need("not-judged:router-arguments-of-different-length")
+	return f
+}
